@@ -123,8 +123,8 @@ func (o *OracleC05) AfterCall(n *Node, st *Step) {
 		return
 	}
 	vs := d.VerifState()
-	if vs.TimePerBlock != s.sc.TPB || (s.sc.MaxTPB > 0 && vs.MaxTimePerBlock != s.sc.MaxTPB) {
-		o.viol(n, "stale_timing_after_reset", "height %d: time per block %v/%v, callbacks return %v/%v", d.BlockIndex, vs.TimePerBlock, vs.MaxTimePerBlock, s.sc.TPB, s.sc.MaxTPB)
+	if vs.TimePerBlock != s.sc.TPBAt(tip+1) || (s.sc.MaxTPB > 0 && vs.MaxTimePerBlock != s.sc.MaxTPBAt(tip+1)) {
+		o.viol(n, "stale_timing_after_reset", "height %d: time per block %v/%v, callbacks return %v/%v", d.BlockIndex, vs.TimePerBlock, vs.MaxTimePerBlock, s.sc.TPBAt(tip+1), s.sc.MaxTPBAt(tip+1))
 		return
 	}
 	if vs.LastBlockTimestamp != st.Arg {
